@@ -89,7 +89,7 @@ def run_property(prop, tier, seed, args):
         ins = getattr(m, "install", None)
         if ins:
             ins(eng)
-    selected = [u for u in units if prop in u.props]
+    selected = [u for u in units if prop in u.props and not (u.opts.get("tier") == "thorough" and tier != "thorough")]
     if args.units:
         want = set(args.units.split(","))
         selected = [u for u in selected if u.id in want]
@@ -122,6 +122,12 @@ def run_property(prop, tier, seed, args):
                 raise VerifError(f"unit kind {u.kind}")
         except Unsupported as e:
             undecided_units.append((u.id, f"unsupported: {e}"))
+            del eng.obligations[n0:]
+            del eng.covers[c0:]
+            if args.verbose:
+                traceback.print_exc()
+        except Exception as e:  # a source change the interpreter cannot follow: undecided, never a verdict
+            undecided_units.append((u.id, f"interpreter could not follow the source ({type(e).__name__}: {str(e)[:200]})"))
             del eng.obligations[n0:]
             del eng.covers[c0:]
             if args.verbose:
